@@ -57,10 +57,13 @@ def make_recipe(rng, tier):
         kind = USER_COSTS[int(rng.integers(3))]
         if adapter == "Saving":
             kind = "L1Cost"
-            cost = S(kind, param=round(float(rng.normal(0, 1)), 2))
+            cost = S(kind, param=round(float(rng.normal(0, 1)), 2), weight=float(rng.choice([0.5, 1.0, 2.0, 3.0])))
         elif kind == "ClosureTableCost":
             cost = S(kind, seed=int(rng.integers(1000)), maxinc=int(rng.integers(1, 4)),
                      zero_prob=float(rng.choice([0.2, 0.5, 0.8])))
+        elif kind == "L1Cost":
+            cost = S(kind, param=None if rng.random() < 0.6 else round(float(rng.normal(0, 1)), 2),
+                     weight=float(rng.choice([0.5, 1.0, 2.0, 3.0])))
         else:
             cost = S(kind, param=None)
         ms = 1
